@@ -19,15 +19,15 @@ func MutexLock(m *sync.Mutex) {
 	}
 	desc := "Mutex.Lock"
 	if s.cfg.Trace {
-		if h := s.mutexes[m]; h != nil {
+		if h := s.mutexes.Get(m); h != nil {
 			desc = fmt.Sprintf("Mutex.Lock(%p held by t%d %s) at %s", m, h.ID, h.Name, caller())
 		}
 	}
-	s.yield(func() bool { return s.mutexes[m] == nil }, false, desc)
+	s.yield(func() bool { return s.mutexes.Get(m) == nil }, false, desc)
 	if !m.TryLock() {
 		fatal("model says mutex %p free, real TryLock failed", m)
 	}
-	s.mutexes[m] = s.cur
+	s.mutexes.Set(m, s.cur)
 }
 
 //go:norace
@@ -37,13 +37,13 @@ func MutexTryLock(m *sync.Mutex) bool {
 		return m.TryLock()
 	}
 	s.yield(nil, false, "Mutex.TryLock")
-	if s.mutexes[m] != nil {
+	if s.mutexes.Get(m) != nil {
 		return false
 	}
 	if !m.TryLock() {
 		fatal("model says mutex %p free, real TryLock failed", m)
 	}
-	s.mutexes[m] = s.cur
+	s.mutexes.Set(m, s.cur)
 	return true
 }
 
@@ -54,9 +54,7 @@ func MutexUnlock(m *sync.Mutex) {
 		m.Unlock()
 		return
 	}
-	if s.mutexes[m] != nil {
-		delete(s.mutexes, m)
-	}
+	s.mutexes.Del(m)
 	// An unlock of an unlocked mutex is a fatal runtime error in Go; let the
 	// real primitive report it.
 	m.Unlock()
@@ -74,16 +72,16 @@ type rwState struct {
 	w         *Task // holder of the internal writer mutex (announced or holding)
 	held      bool  // writer has acquired
 	active    int   // readers holding the lock
-	admitted  map[*Task]bool
-	waitingRd map[*Task]bool
+	admitted  PMap[*Task, bool]
+	waitingRd PMap[*Task, bool]
 }
 
 //go:norace
 func (s *sched) rw(m *sync.RWMutex) *rwState {
-	st := s.rws[m]
+	st := s.rws.Get(m)
 	if st == nil {
-		st = &rwState{admitted: map[*Task]bool{}, waitingRd: map[*Task]bool{}}
-		s.rws[m] = st
+		st = &rwState{}
+		s.rws.Set(m, st)
 	}
 	return st
 }
@@ -101,9 +99,9 @@ func RWRLock(m *sync.RWMutex) {
 	t := s.cur
 	if st.w != nil {
 		// a writer is announced or holding: wait to be admitted by its Unlock
-		st.waitingRd[t] = true
-		s.yield(func() bool { return st.admitted[t] }, false, "RWMutex.RLock(wait writer)")
-		delete(st.admitted, t)
+		st.waitingRd.Set(t, true)
+		s.yield(func() bool { return st.admitted.Get(t) }, false, "RWMutex.RLock(wait writer)")
+		st.admitted.Del(t)
 	} else {
 		st.active++
 	}
@@ -202,10 +200,11 @@ func RWUnlock(m *sync.RWMutex) {
 	st.held = false
 	st.w = nil
 	// admit every reader that was blocked by this writer
-	for t := range st.waitingRd {
-		st.admitted[t] = true
+	for st.waitingRd.Len() > 0 {
+		t, _ := st.waitingRd.At(0)
+		st.admitted.Set(t, true)
 		st.active++
-		delete(st.waitingRd, t)
+		st.waitingRd.Del(t)
 	}
 }
 
@@ -215,10 +214,10 @@ type wgState struct{ n int }
 
 //go:norace
 func (s *sched) wg(w *sync.WaitGroup) *wgState {
-	st := s.wgs[w]
+	st := s.wgs.Get(w)
 	if st == nil {
 		st = &wgState{}
-		s.wgs[w] = st
+		s.wgs.Set(w, st)
 	}
 	return st
 }
@@ -264,10 +263,10 @@ func OnceDo(o *sync.Once, f func()) {
 		o.Do(f)
 		return
 	}
-	st := s.onces[o]
+	st := s.onces.Get(o)
 	if st == nil {
 		st = &onceState{}
-		s.onces[o] = st
+		s.onces.Set(o, st)
 	}
 	s.yield(func() bool { return st.running == nil }, false, "Once.Do")
 	if st.done {
@@ -283,15 +282,15 @@ func OnceDo(o *sync.Once, f func()) {
 
 type condState struct {
 	waiters []*Task
-	woken   map[*Task]bool
+	woken   PMap[*Task, bool]
 }
 
 //go:norace
 func (s *sched) cond(c *sync.Cond) *condState {
-	st := s.conds[c]
+	st := s.conds.Get(c)
 	if st == nil {
-		st = &condState{woken: map[*Task]bool{}}
-		s.conds[c] = st
+		st = &condState{}
+		s.conds.Set(c, st)
 	}
 	return st
 }
@@ -331,10 +330,10 @@ func CondWait(c *sync.Cond) {
 	}
 	st := s.cond(c)
 	t := s.cur
-	st.waiters = append(st.waiters, t)
+	st.waiters = Push(st.waiters, t)
 	lockerUnlock(c.L)
-	s.yield(func() bool { return st.woken[t] }, false, "Cond.Wait")
-	delete(st.woken, t)
+	s.yield(func() bool { return st.woken.Get(t) }, false, "Cond.Wait")
+	st.woken.Del(t)
 	lockerLock(c.L)
 }
 
@@ -349,8 +348,8 @@ func CondSignal(c *sync.Cond) {
 	if len(st.waiters) > 0 {
 		i := s.tape.Choose(len(st.waiters))
 		t := st.waiters[i]
-		st.waiters = append(st.waiters[:i], st.waiters[i+1:]...)
-		st.woken[t] = true
+		st.waiters = RemoveAt(st.waiters, i)
+		st.woken.Set(t, true)
 	}
 }
 
@@ -363,7 +362,7 @@ func CondBroadcast(c *sync.Cond) {
 	}
 	st := s.cond(c)
 	for _, t := range st.waiters {
-		st.woken[t] = true
+		st.woken.Set(t, true)
 	}
 	st.waiters = nil
 }
@@ -374,22 +373,34 @@ func CondBroadcast(c *sync.Cond) {
 // nondeterminism.  Under simulation a pool is a LIFO stack that starts empty
 // in every run; the tape may force a miss.
 
+type poolState struct{ items []interface{} }
+
+//go:norace
+func (s *sched) pool(p *sync.Pool) *poolState {
+	st := s.pools.Get(p)
+	if st == nil {
+		st = &poolState{}
+		s.pools.Set(p, st)
+	}
+	return st
+}
+
 //go:norace
 func PoolGet(p *sync.Pool) interface{} {
 	s := act
 	if s == nil {
 		return p.Get()
 	}
-	st := s.pools[p]
-	if len(st) > 0 && !(s.cfg.PoolMissPct > 0 && s.tape.Choose(100) >= 100-s.cfg.PoolMissPct) {
-		x := st[len(st)-1]
-		st[len(st)-1] = nil
-		s.pools[p] = st[:len(st)-1]
+	st := s.pool(p)
+	if len(st.items) > 0 && !(s.cfg.PoolMissPct > 0 && s.tape.Choose(100) >= 100-s.cfg.PoolMissPct) {
+		x := st.items[len(st.items)-1]
+		st.items[len(st.items)-1] = nil
+		st.items = st.items[:len(st.items)-1]
 		raceAcquire(unsafe.Pointer(p))
-		s.res.Probes["pool.hit"]++
+		s.probes.Set("pool.hit", s.probes.Get("pool.hit")+1)
 		return x
 	}
-	s.res.Probes["pool.miss"]++
+	s.probes.Set("pool.miss", s.probes.Get("pool.miss")+1)
 	if p.New != nil {
 		return p.New()
 	}
@@ -407,7 +418,8 @@ func PoolPut(p *sync.Pool, x interface{}) {
 		return
 	}
 	raceRelease(unsafe.Pointer(p))
-	s.pools[p] = append(s.pools[p], x)
+	st := s.pool(p)
+	st.items = Push(st.items, x)
 }
 
 // PreV is a scheduling point placed in front of a method call on an opaque
@@ -421,8 +433,10 @@ func PreV[T any](p *T) *T {
 	return p
 }
 
+// PreAtomic is the scheduling point in front of an atomic operation.
+//
 //go:norace
-func preAtomic() {
+func PreAtomic() {
 	if s := act; s != nil && s.cfg.YieldAtomics {
 		s.yield(nil, false, "atomic")
 	}
